@@ -1,153 +1,1108 @@
-// temporary probe
+// h13: correspondence harness for C13 (outbound channels connect to where the matching inbound
+// channel was bound).
+//
+// Pure layer: core/task/channel called directly on generated declarations
+// (Inbound.ToFMQMap, Outbound.ToFMQMap, MergeInbound, MergeOutbound, endpoint operations).
+// End-to-end layer: generated workflows (bind/connect blocks at role and task-template level,
+// TCP/IPC addressing, transports, global aliases, tasks on the same / different hosts) are
+// created through Envman.CreateEnvironment (DEPLOY + CONFIGURE) on the in-process core of
+// internal/simcore.  Observed: each task's local bind map and host (snapshot taken by a
+// verification-plugin probe at before_CONFIGURE), the chans.<name>.0.address/method/transport
+// entries of the CONFIGURE command each simulated executor receives, the ports requested in
+// ACCEPT, and whether environment creation failed.
 package main
 
 import (
+	"context"
+	"encoding/json"
 	"fmt"
 	"os"
 	"path/filepath"
+	"regexp"
 	"sort"
-	"time"
+	"strings"
+	"sync"
 
 	"github.com/AliceO2Group/Control/common/utils/uid"
 	"github.com/AliceO2Group/Control/core/integration"
+	pb "github.com/AliceO2Group/Control/core/protos"
+	"github.com/AliceO2Group/Control/core/task/channel"
+
+	"verif/harness/internal/gen"
 	"verif/harness/internal/simcore"
 	"verif/harness/internal/vplugin"
 )
 
-const wf = `name: w1
-defaults:
-  deploy_timeout: 5s
-bind:
-  - name: rootin
-    type: pull
-roles:
-  - name: "grp"
-    roles:
-      - name: "t1"
-        bind:
-          - name: ctl
-            type: sub
-            addressing: ipc
-            transport: shmem
-            global: galias
-          - name: in1
-            type: pull
-            transport: zeromq
-          - name: exp
-            type: pull
-            target: "tcp://*:5555"
-            global: gexp
-          - name: bad
-            type: pull
-            target: "nonsense"
-        task:
-          load: CLS1
-      - name: "t2"
-        connect:
-          - name: out1
-            type: push
-            target: "w1.grp.t1:in1"
-          - name: out2
-            type: push
-            target: "::galias"
-            transport: nanomsg
-          - name: out3
-            type: push
-            target: "tcp://somewhere:1234"
-          - name: out4
-            type: push
-            target: "::gexp"
-          - name: out5
-            type: push
-            target: "w1.grp.t1:bad"
-          - name: out6
-            type: push
-            target: "w1.grp.t1:cin"
-        task:
-          load: CLS2
-  - name: "pre"
-    call:
-      func: verif.Probe("pre")
-      trigger: before_CONFIGURE
-      timeout: 5s
-      critical: false
-`
-const cls1 = `name: CLS1
-control:
-  mode: direct
-wants:
-  cpu: 0.1
-  memory: 64
-bind:
-  - name: cin
-    type: pull
-    addressing: tcp
-  - name: in1
-    type: pull
-    transport: shmem
-command:
-  env: []
-  shell: true
-  value: "sleep 1000"
-`
-const cls2 = `name: CLS2
-control:
-  mode: fairmq
-wants:
-  cpu: 0.1
-  memory: 64
-connect:
-  - name: out1
-    type: push
-    target: "tcp://classlevel:1"
-command:
-  env: []
-  shell: true
-  value: "sleep 1000"
-`
+// ---------------------------------------------------------------- declarations
 
-func main() {
-	rec := vplugin.NewRecorder()
+type inJ struct {
+	Name   string `json:"name"`
+	Tr     string `json:"tr,omitempty"`     // as written; "" = omitted (default)
+	Target string `json:"target,omitempty"` // "" = automatic
+	Global string `json:"global,omitempty"`
+	Addr   string `json:"addr,omitempty"` // "", "tcp", "ipc"
+}
+
+type outJ struct {
+	Name   string `json:"name"`
+	Tr     string `json:"tr,omitempty"`
+	Target string `json:"target"`
+}
+
+type epJ struct {
+	Ipc  bool   `json:"ipc,omitempty"`
+	Host string `json:"host,omitempty"`
+	Port uint64 `json:"port,omitempty"`
+	Path string `json:"path,omitempty"`
+	Tr   string `json:"tr"`
+}
+
+type kvEp struct {
+	K  string `json:"k"`
+	Ep epJ    `json:"ep"`
+}
+
+func trOf(s string) string {
+	if s == "" {
+		return "default"
+	}
+	return s
+}
+
+func inTerm(c inJ) string {
+	return fmt.Sprintf("(mkIn %s %s %s %s %s)", gen.Str(c.Name), gen.Str(trOf(c.Tr)), gen.Str(c.Target),
+		gen.Str(c.Global), gen.Bool(c.Addr == "ipc"))
+}
+
+func outTerm(c outJ) string {
+	return fmt.Sprintf("(mkOut %s %s %s)", gen.Str(c.Name), gen.Str(trOf(c.Tr)), gen.Str(c.Target))
+}
+
+func insTerm(l []inJ) string {
+	items := make([]string, len(l))
+	for i, c := range l {
+		items[i] = inTerm(c)
+	}
+	return gen.List(items)
+}
+
+func outsTerm(l []outJ) string {
+	items := make([]string, len(l))
+	for i, c := range l {
+		items[i] = outTerm(c)
+	}
+	return gen.List(items)
+}
+
+func epTerm(e epJ) string {
+	if e.Ipc {
+		return fmt.Sprintf("(Ipc %s %s)", gen.Str(e.Path), gen.Str(e.Tr))
+	}
+	return fmt.Sprintf("(Tcp %s %d %s)", gen.Str(e.Host), e.Port, gen.Str(e.Tr))
+}
+
+func bmTerm(l []kvEp) string {
+	items := make([]string, len(l))
+	for i, kv := range l {
+		items[i] = gen.Pair(gen.Str(kv.K), epTerm(kv.Ep))
+	}
+	return gen.List(items)
+}
+
+func goIn(c inJ) channel.Inbound {
+	af := channel.TCP
+	if c.Addr == "ipc" {
+		af = channel.IPC
+	}
+	return channel.Inbound{Channel: channel.Channel{Name: c.Name, Type: channel.PULL, SndBufSize: 1000, RcvBufSize: 1000,
+		RateLogging: "0", Transport: channel.TransportType(trOf(c.Tr)), Target: c.Target}, Global: c.Global, Addressing: af}
+}
+
+func goOut(c outJ) channel.Outbound {
+	return channel.Outbound{Channel: channel.Channel{Name: c.Name, Type: channel.PUSH, SndBufSize: 1000, RcvBufSize: 1000,
+		RateLogging: "0", Transport: channel.TransportType(trOf(c.Tr)), Target: c.Target}}
+}
+
+func goEp(e epJ) channel.Endpoint {
+	if e.Ipc {
+		return channel.IpcEndpoint{Path: e.Path, Transport: channel.TransportType(e.Tr)}
+	}
+	return channel.TcpEndpoint{Host: e.Host, Port: e.Port, Transport: channel.TransportType(e.Tr)}
+}
+
+func fromEp(e channel.Endpoint) epJ {
+	switch v := e.(type) {
+	case channel.TcpEndpoint:
+		return epJ{Host: v.Host, Port: v.Port, Tr: string(v.Transport)}
+	case channel.IpcEndpoint:
+		return epJ{Ipc: true, Path: v.Path, Tr: string(v.Transport)}
+	}
+	return epJ{Tr: "?unknown endpoint type"}
+}
+
+func goBm(l []kvEp) channel.BindMap {
+	m := channel.BindMap{}
+	for _, kv := range l {
+		m[kv.K] = goEp(kv.Ep)
+	}
+	return m
+}
+
+type cpJ struct {
+	Address   string `json:"address"`
+	Method    string `json:"method"`
+	Transport string `json:"transport"`
+}
+
+func cpTerm(c cpJ) string {
+	return fmt.Sprintf("(%s, %s, %s)", gen.Str(c.Address), gen.Str(c.Method), gen.Str(c.Transport))
+}
+
+var chanKey = regexp.MustCompile(`^chans\.(.+)\.0\.address$`)
+
+// chanProps projects a property map onto name -> (address, method, transport)
+func chanProps(pm map[string]string) map[string]cpJ {
+	out := map[string]cpJ{}
+	for k, v := range pm {
+		if m := chanKey.FindStringSubmatch(k); m != nil {
+			n := m[1]
+			out[n] = cpJ{Address: v, Method: pm["chans."+n+".0.method"], Transport: pm["chans."+n+".0.transport"]}
+		}
+	}
+	return out
+}
+
+func propsTerm(m map[string]cpJ) string {
+	names := make([]string, 0, len(m))
+	for n := range m {
+		names = append(names, n)
+	}
+	sort.Strings(names)
+	items := make([]string, len(names))
+	for i, n := range names {
+		items[i] = gen.Pair(gen.Str(n), cpTerm(m[n]))
+	}
+	return gen.List(items)
+}
+
+// ---------------------------------------------------------------- pure layer
+
+type pureInput struct {
+	In    *inJ   `json:"in,omitempty"`
+	Out   *outJ  `json:"out,omitempty"`
+	Bm    []kvEp `json:"bm,omitempty"`
+	HpIn  []inJ  `json:"hp_in,omitempty"`
+	LpIn  []inJ  `json:"lp_in,omitempty"`
+	HpOut []outJ `json:"hp_out,omitempty"`
+	LpOut []outJ `json:"lp_out,omitempty"`
+	Ep    *epJ   `json:"ep,omitempty"`
+	Host  string `json:"host,omitempty"`
+	Ep2   *epJ   `json:"ep2,omitempty"`
+}
+
+func caseInFmq(c inJ, bm []kvEp) gen.Case {
+	ib := goIn(c)
+	pm, err := ib.ToFMQMap(goBm(bm))
+	obs := gen.None()
+	var o interface{} = "error"
+	if err == nil {
+		cp, ok := chanProps(pm)[c.Name]
+		if !ok {
+			cp = cpJ{Address: "\x00missing"}
+		}
+		obs = gen.Some(cpTerm(cp))
+		o = cp
+	}
+	return gen.Case{Term: fmt.Sprintf("CInFmq %s %s %s", inTerm(c), bmTerm(bm), obs), Kind: "in_fmq",
+		Input: pureInput{In: &c, Bm: bm}, Obs: o}
+}
+
+func caseOutFmq(c outJ, bm []kvEp) gen.Case {
+	ob := goOut(c)
+	pm, err := ob.ToFMQMap(goBm(bm))
+	obs := gen.None()
+	var o interface{} = "error"
+	if err == nil && len(pm) > 0 {
+		cp, ok := chanProps(pm)[c.Name]
+		if !ok {
+			cp = cpJ{Address: "\x00missing"}
+		}
+		obs = gen.Some(cpTerm(cp))
+		o = cp
+	} else if err == nil {
+		// no error and no properties: the caller would silently configure nothing
+		obs = gen.Some(cpTerm(cpJ{Address: "\x00empty-without-error"}))
+		o = "empty map without error"
+	}
+	return gen.Case{Term: fmt.Sprintf("COutFmq %s %s %s", outTerm(c), bmTerm(bm), obs), Kind: "out_fmq",
+		Input: pureInput{Out: &c, Bm: bm}, Obs: o}
+}
+
+func fromGoIn(c channel.Inbound) inJ {
+	a := "tcp"
+	if c.Addressing == channel.IPC {
+		a = "ipc"
+	}
+	return inJ{Name: c.Name, Tr: string(c.Transport), Target: c.Target, Global: c.Global, Addr: a}
+}
+
+func caseMergeIn(hp, lp []inJ) gen.Case {
+	g := func(l []inJ) []channel.Inbound {
+		out := make([]channel.Inbound, len(l))
+		for i, c := range l {
+			out[i] = goIn(c)
+		}
+		return out
+	}
+	res := channel.MergeInbound(g(hp), g(lp))
+	obs := make([]inJ, len(res))
+	for i, c := range res {
+		obs[i] = fromGoIn(c)
+	}
+	return gen.Case{Term: fmt.Sprintf("CMergeIn %s %s %s", insTerm(hp), insTerm(lp), insTerm(obs)), Kind: "merge_in",
+		Input: pureInput{HpIn: hp, LpIn: lp}, Obs: obs}
+}
+
+func caseMergeOut(hp, lp []outJ) gen.Case {
+	g := func(l []outJ) []channel.Outbound {
+		out := make([]channel.Outbound, len(l))
+		for i, c := range l {
+			out[i] = goOut(c)
+		}
+		return out
+	}
+	res := channel.MergeOutbound(g(hp), g(lp))
+	obs := make([]outJ, len(res))
+	for i, c := range res {
+		obs[i] = outJ{Name: c.Name, Tr: string(c.Transport), Target: c.Target}
+	}
+	return gen.Case{Term: fmt.Sprintf("CMergeOut %s %s %s", outsTerm(hp), outsTerm(lp), outsTerm(obs)), Kind: "merge_out",
+		Input: pureInput{HpOut: hp, LpOut: lp}, Obs: obs}
+}
+
+func caseEndpoint(e epJ, host string, f epJ) gen.Case {
+	ge, gf := goEp(e), goEp(f)
+	addr := ge.GetAddress()
+	tg := fromEp(ge.ToTargetEndpoint(host))
+	bd := fromEp(ge.ToBoundEndpoint())
+	eq := channel.EndpointEquals(ge, gf)
+	if ge.GetTransport() != channel.TransportType(e.Tr) {
+		addr = "\x00transport changed"
+	}
+	return gen.Case{Term: fmt.Sprintf("CEndpoint %s %s %s (%s, %s, %s, %s)", epTerm(e), gen.Str(host), epTerm(f),
+		gen.Str(addr), epTerm(tg), epTerm(bd), gen.Bool(eq)), Kind: "endpoint",
+		Input: pureInput{Ep: &e, Host: host, Ep2: &f},
+		Obs:   map[string]interface{}{"address": addr, "target": tg, "bound": bd, "equals": eq}}
+}
+
+var (
+	inNames    = []string{"in0", "in1", "in2", "ctl"}
+	outNames   = []string{"out0", "out1", "out2", "mon"}
+	transports = []string{"", "default", "zeromq", "nanomsg", "shmem"}
+	globals    = []string{"ga", "gb", "gc"}
+	hostPool   = []string{"h1", "h2", "h3"}
+	badTargets = []string{"nonsense", "udp://x:1", "host:123", "tcp:/x:1", "TCP://x:1", "ipc:/p", "::"}
+)
+
+func genExplicit(r *gen.Rand) string {
+	switch r.Intn(5) {
+	case 0:
+		return fmt.Sprintf("tcp://*:%d", r.Range(5000, 5999))
+	case 1:
+		return fmt.Sprintf("tcp://%s:%d", r.Pick([]string{"somewhere", "h1", "10.0.0.7", "localhost"}), r.Range(1, 65535))
+	case 2:
+		return "ipc://" + r.Pick([]string{"/tmp/pipe-1", "@abstract", "x", ""})
+	case 3:
+		return "tcp://"
+	default:
+		return "ipc:///tmp/readout-pipe-" + fmt.Sprint(r.Intn(3))
+	}
+}
+
+func genEp(r *gen.Rand) epJ {
+	tr := trOf(r.Pick(transports))
+	if r.Chance(1, 3) {
+		return epJ{Ipc: true, Path: r.Pick([]string{"@o2ipc-a", "@o2ipc-b", "/tmp/p", ""}), Tr: tr}
+	}
+	host := r.Pick([]string{"*", "", "h1", "h2", "flp001.cern.ch"})
+	port := uint64(r.Range(9000, 9012))
+	switch r.Intn(8) {
+	case 0:
+		port = 0
+	case 1:
+		port = 65535
+	case 2:
+		port = uint64(r.U64())
+	case 3:
+		port = uint64(r.Range(1, 120000))
+	}
+	return epJ{Host: host, Port: port, Tr: tr}
+}
+
+var pureKeys = []string{"w.a.t1:in0", "w.a.t1:in1", "w.t2:in0", "::ga", "::gb", "in0", "in1", "ctl", "w.a.t1", ":in0", ""}
+
+func genBm(r *gen.Rand, must string, force bool) []kvEp {
+	var out []kvEp
+	seen := map[string]bool{}
+	n := r.Range(0, 4)
+	if force {
+		out = append(out, kvEp{must, genEp(r)})
+		seen[must] = true
+	}
+	for i := 0; i < n; i++ {
+		k := r.Pick(pureKeys)
+		if seen[k] {
+			continue
+		}
+		seen[k] = true
+		out = append(out, kvEp{k, genEp(r)})
+	}
+	sort.Slice(out, func(i, j int) bool { return out[i].K < out[j].K })
+	return out
+}
+
+func genInDecl(r *gen.Rand, names []string) inJ {
+	c := inJ{Name: r.Pick(names), Tr: r.Pick(transports), Addr: r.Pick([]string{"", "", "tcp", "ipc", "ipc"})}
+	if r.Chance(1, 4) {
+		c.Global = r.Pick(globals)
+	}
+	switch r.Intn(12) {
+	case 0, 1:
+		c.Target = genExplicit(r)
+	case 2:
+		c.Target = r.Pick(badTargets)
+	}
+	return c
+}
+
+func genPure(r *gen.Rand, kind int) gen.Case {
+	switch kind {
+	case 0: // Inbound.ToFMQMap
+		c := genInDecl(r, inNames)
+		return caseInFmq(c, genBm(r, c.Name, r.Chance(3, 4)))
+	case 1: // Outbound.ToFMQMap
+		c := outJ{Name: r.Pick(outNames), Tr: r.Pick(transports)}
+		force := false
+		switch r.Intn(10) {
+		case 0, 1:
+			c.Target = genExplicit(r)
+		case 2:
+			c.Target = r.Pick(badTargets)
+		case 3:
+			c.Target = r.Pick(pureKeys) // maybe present
+		case 4:
+			c.Target = strings.ToUpper(r.Pick(pureKeys[:5]))
+		default:
+			c.Target = r.Pick(pureKeys)
+			force = true
+		}
+		return caseOutFmq(c, genBm(r, c.Target, force))
+	case 2:
+		var hp, lp []inJ
+		for i := r.Range(0, 3); i > 0; i-- {
+			hp = append(hp, genInDecl(r, inNames))
+		}
+		for i := r.Range(0, 4); i > 0; i-- {
+			lp = append(lp, genInDecl(r, inNames))
+		}
+		return caseMergeIn(hp, lp)
+	case 3:
+		mk := func() outJ {
+			c := outJ{Name: r.Pick(outNames), Tr: r.Pick(transports), Target: r.Pick(pureKeys)}
+			if r.Chance(1, 4) {
+				c.Target = genExplicit(r)
+			}
+			return c
+		}
+		var hp, lp []outJ
+		for i := r.Range(0, 3); i > 0; i-- {
+			hp = append(hp, mk())
+		}
+		for i := r.Range(0, 4); i > 0; i-- {
+			lp = append(lp, mk())
+		}
+		return caseMergeOut(hp, lp)
+	default:
+		e := genEp(r)
+		f := genEp(r)
+		host := r.Pick([]string{"h1", "h2", "*", "", "flp001.cern.ch"})
+		switch r.Intn(4) {
+		case 0:
+			f = e
+		case 1: // the comparison configureTasks makes: registered (host substituted) vs freshly bound
+			f = fromEp(goEp(e).ToTargetEndpoint(host))
+		case 2:
+			f = e
+			f.Tr = trOf(r.Pick(transports))
+		}
+		return caseEndpoint(e, host, f)
+	}
+}
+
+func replayPure(in pureInput, kind string) (gen.Case, bool) {
+	switch kind {
+	case "in_fmq":
+		return caseInFmq(*in.In, in.Bm), true
+	case "out_fmq":
+		return caseOutFmq(*in.Out, in.Bm), true
+	case "merge_in":
+		return caseMergeIn(in.HpIn, in.LpIn), true
+	case "merge_out":
+		return caseMergeOut(in.HpOut, in.LpOut), true
+	case "endpoint":
+		return caseEndpoint(*in.Ep, in.Host, *in.Ep2), true
+	}
+	return gen.Case{}, false
+}
+
+// ---------------------------------------------------------------- end-to-end layer
+
+type roleJ struct {
+	Name    string  `json:"name"`
+	Bind    []inJ   `json:"bind,omitempty"`
+	Connect []outJ  `json:"connect,omitempty"`
+	Task    *taskJ  `json:"task,omitempty"` // nil: aggregator
+	Roles   []roleJ `json:"roles,omitempty"`
+}
+
+type taskJ struct {
+	Mode  string `json:"mode"` // direct | fairmq | basic
+	CBind []inJ  `json:"cbind,omitempty"`
+	CConn []outJ `json:"cconn,omitempty"`
+	Host  string `json:"host,omitempty"` // machine_id constraint; "" = anywhere
+}
+
+type envInput struct {
+	Root  roleJ  `json:"root"`
+	Label string `json:"label,omitempty"`
+}
+
+// one flattened task role
+type flatTask struct {
+	Names []string
+	Binds [][]inJ // own, parent, ..., root
+	Conns [][]outJ
+	T     *taskJ
+}
+
+func (f flatTask) path() string { return strings.Join(f.Names, ".") }
+
+func flatten(root *roleJ) []flatTask {
+	var out []flatTask
+	var rec func(r *roleJ, names []string, binds [][]inJ, conns [][]outJ)
+	rec = func(r *roleJ, names []string, binds [][]inJ, conns [][]outJ) {
+		names = append(append([]string(nil), names...), r.Name)
+		binds = append([][]inJ{r.Bind}, binds...)
+		conns = append([][]outJ{r.Connect}, conns...)
+		if r.Task != nil {
+			out = append(out, flatTask{Names: names, Binds: binds, Conns: conns, T: r.Task})
+			return
+		}
+		for i := range r.Roles {
+			rec(&r.Roles[i], names, binds, conns)
+		}
+	}
+	rec(root, nil, nil, nil)
+	return out
+}
+
+// names of the inbound channels of a task in the order the scheduler processes them
+// (own block as written, then each ancestor's new names, then the template's new names)
+func mergedInNames(f flatTask) []string {
+	var names []string
+	seen := map[string]bool{}
+	for i, blk := range append(append([][]inJ(nil), f.Binds...), f.T.CBind) {
+		for _, c := range blk {
+			if i == 0 || !seen[c.Name] {
+				names = append(names, c.Name)
+			}
+			seen[c.Name] = true
+		}
+	}
+	return names
+}
+
+func yq(s string) string { b, _ := json.Marshal(s); return string(b) }
+
+func emitIn(b *strings.Builder, ind string, l []inJ) {
+	if len(l) == 0 {
+		return
+	}
+	b.WriteString(ind + "bind:\n")
+	for _, c := range l {
+		b.WriteString(ind + "  - name: " + yq(c.Name) + "\n")
+		b.WriteString(ind + "    type: pull\n")
+		if c.Tr != "" {
+			b.WriteString(ind + "    transport: " + yq(c.Tr) + "\n")
+		}
+		if c.Addr != "" {
+			b.WriteString(ind + "    addressing: " + yq(c.Addr) + "\n")
+		}
+		if c.Global != "" {
+			b.WriteString(ind + "    global: " + yq(c.Global) + "\n")
+		}
+		if c.Target != "" {
+			b.WriteString(ind + "    target: " + yq(c.Target) + "\n")
+		}
+	}
+}
+
+func emitOut(b *strings.Builder, ind string, l []outJ) {
+	if len(l) == 0 {
+		return
+	}
+	b.WriteString(ind + "connect:\n")
+	for _, c := range l {
+		b.WriteString(ind + "  - name: " + yq(c.Name) + "\n")
+		b.WriteString(ind + "    type: push\n")
+		if c.Tr != "" {
+			b.WriteString(ind + "    transport: " + yq(c.Tr) + "\n")
+		}
+		b.WriteString(ind + "    target: " + yq(c.Target) + "\n")
+	}
+}
+
+func emitRole(b *strings.Builder, ind string, r *roleJ, classOf map[*taskJ]string) {
+	b.WriteString(ind + "- name: " + yq(r.Name) + "\n")
+	in2 := ind + "  "
+	emitIn(b, in2, r.Bind)
+	emitOut(b, in2, r.Connect)
+	if r.Task != nil {
+		if r.Task.Host != "" {
+			b.WriteString(in2 + "constraints:\n" + in2 + "  - attribute: machine_id\n" + in2 + "    value: " + yq(r.Task.Host) + "\n")
+		}
+		b.WriteString(in2 + "task:\n" + in2 + "  load: " + classOf[r.Task] + "\n")
+		return
+	}
+	b.WriteString(in2 + "roles:\n")
+	for i := range r.Roles {
+		emitRole(b, in2+"  ", &r.Roles[i], classOf)
+	}
+}
+
+func classYAML(name string, t *taskJ) string {
+	var b strings.Builder
+	b.WriteString("name: " + name + "\ncontrol:\n  mode: " + t.Mode + "\nwants:\n  cpu: 0.01\n  memory: 1\n")
+	emitIn(&b, "", t.CBind)
+	emitOut(&b, "", t.CConn)
+	b.WriteString("command:\n  env: []\n  shell: true\n  value: \"sleep 1000\"\n")
+	return b.String()
+}
+
+type world struct {
+	s    *simcore.Sim
+	rec  *vplugin.Recorder
+	mu   sync.Mutex
+	snap map[string]taskSnap // env id | role path -> snapshot
+	seq  int
+}
+
+type taskSnap struct {
+	TaskId string
+	Host   string
+	Local  map[string]epJ
+}
+
+func newWorld(dir string) (*world, error) {
+	w := &world{rec: vplugin.NewRecorder()}
+	var agents []simcore.Agent
+	for _, h := range hostPool {
+		agents = append(agents, simcore.Agent{Hostname: h, CPUs: 64, Mem: 65536,
+			Ports: [][2]uint64{{9000, 9200}, {30000, 30200}}, Attributes: map[string]string{"machine_id": h}})
+	}
 	s, err := simcore.New(simcore.Options{
-		Plugins:     map[string]integration.NewFunc{"verif": vplugin.New(rec)},
-		WorkDir:     "/verif/build/sim/c13probe",
-		Workflows:   map[string]string{},
-		TaskClasses: map[string]string{},
-		Agents: []simcore.Agent{
-			{Hostname: "host1", CPUs: 4, Mem: 4096, Ports: [][2]uint64{{9000, 9100}, {30000, 30100}}, Attributes: map[string]string{"machine_id": "host1"}},
-			{Hostname: "host2", CPUs: 4, Mem: 4096, Ports: [][2]uint64{{9000, 9100}, {30000, 30100}}, Attributes: map[string]string{"machine_id": "host2"}},
-		},
-		Quiet: os.Getenv("SIM_VERBOSE") == "",
+		Plugins: map[string]integration.NewFunc{"verif": vplugin.New(w.rec)},
+		WorkDir: dir, Workflows: map[string]string{}, TaskClasses: map[string]string{},
+		Agents: agents, Quiet: os.Getenv("SIM_VERBOSE") == "",
 	})
 	if err != nil {
-		fmt.Println("ERR", err)
-		os.Exit(1)
+		return nil, err
 	}
-	rec.OnStart = func(id string, vars map[string]string) {
+	w.s = s
+	w.rec.OnStart = func(id string, vars map[string]string) {
+		snap := map[string]taskSnap{}
 		for _, ti := range s.Taskman.VerifRoster() {
+			if ti.RolePath == "" {
+				continue
+			}
 			t := s.Taskman.GetTask(ti.TaskId)
-			fmt.Println("PROBE", ti.RolePath, ti.Hostname, t.GetLocalBindMap()); fmt.Printf("  OUT %+v\n  IN %+v\n", t.GetParent().CollectOutboundChannels(), t.GetParent().CollectInboundChannels())
+			if t == nil {
+				continue
+			}
+			loc := map[string]epJ{}
+			for k, e := range t.GetLocalBindMap() {
+				loc[k] = fromEp(e)
+			}
+			snap[ti.EnvId+"|"+ti.RolePath] = taskSnap{TaskId: ti.TaskId, Host: ti.Hostname, Local: loc}
+		}
+		w.mu.Lock()
+		w.snap = snap
+		w.mu.Unlock()
+	}
+	return w, nil
+}
+
+var ipcRe = regexp.MustCompile(`@o2ipc-[0-9a-v]{20}`)
+
+type envObs struct {
+	Error string                   `json:"error,omitempty"`
+	Tasks []map[string]interface{} `json:"tasks,omitempty"`
+}
+
+func (w *world) runEnv(in envInput) gen.Case {
+	w.seq++
+	s := w.s
+	fl := flatten(&in.Root)
+	classOf := map[*taskJ]string{}
+	for i := range fl {
+		name := fmt.Sprintf("k%dx%d", w.seq, i)
+		classOf[fl[i].T] = name
+		if err := os.WriteFile(filepath.Join(s.RepoDir, "tasks", name+".yaml"), []byte(classYAML(name, fl[i].T)), 0o644); err != nil {
+			panic(err)
 		}
 	}
-	os.WriteFile(filepath.Join(s.RepoDir, "workflows", "w1.yaml"), []byte(wf), 0o644)
-	os.WriteFile(filepath.Join(s.RepoDir, "tasks", "CLS1.yaml"), []byte(cls1), 0o644)
-	os.WriteFile(filepath.Join(s.RepoDir, "tasks", "CLS2.yaml"), []byte(cls2), 0o644)
-	t0 := time.Now()
-	id, err := s.Envman.CreateEnvironment("w1", map[string]string{}, false, uid.New(), false)
-	fmt.Println("create:", id, err, time.Since(t0))
-	for _, c := range s.CallsSnapshot() {
+	wfName := in.Root.Name
+	var b strings.Builder
+	b.WriteString("name: " + wfName + "\ndefaults:\n  deploy_timeout: 10s\n")
+	emitIn(&b, "", in.Root.Bind)
+	emitOut(&b, "", in.Root.Connect)
+	b.WriteString("roles:\n")
+	for i := range in.Root.Roles {
+		emitRole(&b, "  ", &in.Root.Roles[i], classOf)
+	}
+	b.WriteString("  - name: \"zzprobe\"\n    call:\n      func: verif.Probe(\"pre\")\n      trigger: before_CONFIGURE\n      timeout: 5s\n      critical: false\n")
+	if err := os.WriteFile(filepath.Join(s.RepoDir, "workflows", wfName+".yaml"), []byte(b.String()), 0o644); err != nil {
+		panic(err)
+	}
+	w.mu.Lock()
+	w.snap = nil
+	w.mu.Unlock()
+	before := len(s.CallsSnapshot())
+	envId := uid.New()
+	_, err := s.Envman.CreateEnvironment(wfName, map[string]string{}, false, envId, false)
+	calls := s.CallsSnapshot()[before:]
+	w.mu.Lock()
+	snap := w.snap
+	w.mu.Unlock()
+
+	// per task: host, local map, ACCEPT ports, CONFIGURE chans
+	type perTask struct {
+		host  string
+		local map[string]epJ
+		ports []uint64
+		cfg   map[string]cpJ
+		got   bool
+	}
+	pts := make([]perTask, len(fl))
+	byTask := map[string]int{}
+	for i, f := range fl {
+		if sn, ok := snap[envId.String()+"|"+f.path()]; ok {
+			pts[i].host, pts[i].local = sn.Host, sn.Local
+			byTask[sn.TaskId] = i
+		}
+	}
+	for _, c := range calls {
 		if c.Type == "ACCEPT" {
 			for _, ti := range c.Tasks {
-				fmt.Println("ACCEPT", ti.Name, ti.AgentID.Value, ti.Resources)
+				i, ok := byTask[ti.TaskID.Value]
+				if !ok {
+					continue
+				}
+				for _, res := range ti.Resources {
+					if res.GetName() == "ports" && res.Ranges != nil {
+						for _, rg := range res.Ranges.Range {
+							for p := rg.Begin; p <= rg.End && p < rg.Begin+256; p++ {
+								pts[i].ports = append(pts[i].ports, p)
+							}
+						}
+					}
+				}
 			}
 		}
-		if c.Msg != nil && c.Msg.Event == "CONFIGURE" {
-			keys := []string{}
-			for k := range c.Msg.Arguments {
-				keys = append(keys, k)
+		if c.Type == "MESSAGE" && c.Msg != nil && c.Msg.Name == "MesosCommand_Transition" && c.Msg.Event == "CONFIGURE" {
+			for _, tid := range c.Msg.TaskIds {
+				if i, ok := byTask[tid]; ok {
+					pts[i].cfg = chanProps(c.Msg.Arguments)
+					pts[i].got = true
+				}
 			}
-			sort.Strings(keys)
-			fmt.Println("CONFIGURE", c.Msg.TaskIds, string(c.Msg.Raw))
 		}
+	}
+	// canonical names for the random IPC paths: first occurrence over tasks (workflow order),
+	// local map keys sorted
+	canon := map[string]string{}
+	cn := func(sv string) string {
+		return ipcRe.ReplaceAllStringFunc(sv, func(m string) string {
+			if c, ok := canon[m]; ok {
+				return c
+			}
+			c := fmt.Sprintf("@o2ipc-#%d", len(canon))
+			canon[m] = c
+			return c
+		})
+	}
+	for i := range pts {
+		keys := make([]string, 0, len(pts[i].local))
+		for k := range pts[i].local {
+			keys = append(keys, k)
+		}
+		sort.Strings(keys)
+		nl := map[string]epJ{}
+		for _, k := range keys {
+			e := pts[i].local[k]
+			e.Path = cn(e.Path)
+			nl[k] = e
+		}
+		pts[i].local = nl
+	}
+	for i := range pts {
+		names := make([]string, 0, len(pts[i].cfg))
+		for n := range pts[i].cfg {
+			names = append(names, n)
+		}
+		sort.Strings(names)
+		for _, n := range names {
+			c := pts[i].cfg[n]
+			c.Address = cn(c.Address)
+			pts[i].cfg[n] = c
+		}
+	}
+
+	// Coq terms
+	var wts, obsItems, portItems []string
+	var tasksObs []map[string]interface{}
+	for i, f := range fl {
+		var bindBlocks, connBlocks []string
+		for _, blk := range f.Binds {
+			bindBlocks = append(bindBlocks, insTerm(blk))
+		}
+		for _, blk := range f.Conns {
+			connBlocks = append(connBlocks, outsTerm(blk))
+		}
+		var allocs []string
+		for _, n := range mergedInNames(f) {
+			e := pts[i].local[n]
+			if e.Ipc {
+				allocs = append(allocs, gen.Pair("0", gen.Str(e.Path)))
+			} else {
+				allocs = append(allocs, gen.Pair(gen.N(e.Port), "[]"))
+			}
+		}
+		wts = append(wts, fmt.Sprintf("mkW %s %s %s %s %s %s %s %s", gen.StrList(f.Names), gen.List(bindBlocks), gen.List(connBlocks),
+			gen.Bool(f.T.Mode != "basic"), insTerm(f.T.CBind), outsTerm(f.T.CConn), gen.Str(pts[i].host), gen.List(allocs)))
+		keys := make([]string, 0, len(pts[i].local))
+		for k := range pts[i].local {
+			keys = append(keys, k)
+		}
+		sort.Strings(keys)
+		var loc []kvEp
+		for _, k := range keys {
+			loc = append(loc, kvEp{k, pts[i].local[k]})
+		}
+		cfg := pts[i].cfg
+		if cfg == nil {
+			cfg = map[string]cpJ{}
+		}
+		obsItems = append(obsItems, gen.Pair(bmTerm(loc), propsTerm(cfg)))
+		portItems = append(portItems, gen.NList(pts[i].ports))
+		tasksObs = append(tasksObs, map[string]interface{}{"path": f.path(), "host": pts[i].host, "local": loc,
+			"configure": cfg, "accept_ports": pts[i].ports, "configure_seen": pts[i].got})
+	}
+	obs := gen.None()
+	eo := envObs{Tasks: tasksObs}
+	if err == nil {
+		obs = gen.Some(gen.List(obsItems))
+		for i := range pts {
+			if !pts[i].got {
+				// a task that never received CONFIGURE although creation succeeded
+				obs = gen.Some(gen.List(append(obsItems, gen.Pair("[]", "[]"))))
+				eo.Error = "task " + fl[i].path() + " received no CONFIGURE"
+			}
+		}
+	} else {
+		eo.Error = err.Error()
+	}
+	// clean up so that the roster stays small
+	if err == nil {
+		_, _ = s.Rpc.DestroyEnvironment(context.Background(), &pb.DestroyEnvironmentRequest{Id: envId.String(), AllowInRunningState: true, Force: true})
+	}
+	kind := "env_ok"
+	if err != nil {
+		kind = "env_fail"
+	}
+	if in.Label != "" {
+		kind = "env_corpus"
+	}
+	return gen.Case{Term: fmt.Sprintf("CEnv %s %s %s", gen.List(wts), obs, gen.List(portItems)), Kind: kind,
+		Input: map[string]interface{}{"env": in}, Obs: eo}
+}
+
+// ---------------------------------------------------------------- workflow generator
+
+func genEnv(r *gen.Rand) envInput {
+	root := roleJ{Name: "w"}
+	taskCount := 0
+	mkTask := func(name string) roleJ {
+		taskCount++
+		t := &taskJ{Mode: r.Pick([]string{"direct", "direct", "direct", "direct", "fairmq", "fairmq", "fairmq", "fairmq", "fairmq", "basic"})}
+		if r.Chance(3, 4) {
+			t.Host = r.Pick(hostPool)
+		}
+		return roleJ{Name: name, Task: t}
+	}
+	// tree shape
+	for i, n := 0, r.Range(0, 2); i < n; i++ {
+		root.Roles = append(root.Roles, mkTask(fmt.Sprintf("t%d", i)))
+	}
+	for g, ng := 0, r.Range(0, 2); g < ng; g++ {
+		grp := roleJ{Name: fmt.Sprintf("g%d", g)}
+		for i, n := 0, r.Range(1, 2); i < n; i++ {
+			grp.Roles = append(grp.Roles, mkTask(fmt.Sprintf("t%d", i)))
+		}
+		if r.Chance(1, 4) {
+			sub := roleJ{Name: "s"}
+			for i, n := 0, r.Range(1, 2); i < n; i++ {
+				sub.Roles = append(sub.Roles, mkTask(fmt.Sprintf("u%d", i)))
+			}
+			grp.Roles = append(grp.Roles, sub)
+		}
+		root.Roles = append(root.Roles, grp)
+	}
+	if taskCount == 0 {
+		root.Roles = append(root.Roles, mkTask("t0"))
+	}
+	// inbound declarations
+	declIn := func(aggr bool) inJ {
+		c := genInDecl(r, inNames)
+		if aggr && r.Chance(2, 3) {
+			c.Global = "" // an alias declared above several tasks is a conflict; keep it rare
+		}
+		if c.Global != "" && r.Chance(1, 2) {
+			c.Global = fmt.Sprintf("g-%d", r.Intn(6)) // mostly distinct aliases
+		}
+		return c
+	}
+	uniq := func(l []inJ) []inJ {
+		// a block naming a channel twice is generated rarely and then without aliases
+		seen := map[string]bool{}
+		var out []inJ
+		for _, c := range l {
+			if seen[c.Name] {
+				if !r.Chance(1, 12) {
+					continue
+				}
+				c.Global = ""
+				for i := range out {
+					if out[i].Name == c.Name {
+						out[i].Global = ""
+					}
+				}
+			}
+			seen[c.Name] = true
+			out = append(out, c)
+		}
+		return out
+	}
+	var walk func(ro *roleJ)
+	walk = func(ro *roleJ) {
+		if ro.Task == nil {
+			if r.Chance(1, 3) {
+				ro.Bind = uniq([]inJ{declIn(true)})
+			}
+			for i := range ro.Roles {
+				walk(&ro.Roles[i])
+			}
+			return
+		}
+		var own, cls []inJ
+		for i := r.Range(0, 2); i > 0; i-- {
+			own = append(own, declIn(false))
+		}
+		for i := r.Range(0, 2); i > 0; i-- {
+			cls = append(cls, declIn(false))
+		}
+		ro.Bind, ro.Task.CBind = uniq(own), uniq(cls)
+	}
+	walk(&root)
+	// what can be named
+	fl := flatten(&root)
+	var keys, aliases []string
+	for _, f := range fl {
+		if f.T.Mode == "basic" {
+			continue
+		}
+		for _, blk := range append(append([][]inJ(nil), f.Binds...), f.T.CBind) {
+			for _, c := range blk {
+				keys = append(keys, f.path()+":"+c.Name)
+				if c.Global != "" {
+					aliases = append(aliases, "::"+c.Global)
+				}
+			}
+		}
+	}
+	target := func() string {
+		x := r.Intn(100)
+		switch {
+		case x < 50 && len(keys) > 0:
+			return r.Pick(keys)
+		case x < 68 && len(aliases) > 0:
+			return r.Pick(aliases)
+		case x < 82:
+			return genExplicit(r)
+		case x < 86:
+			return "::" + r.Pick(globals)
+		case x < 92:
+			return r.Pick([]string{"w.t0:in0", "w.g0.t0:in1", "w.g1.t1:ctl", "w.t1:in2"})
+		default:
+			return r.Pick([]string{"w.nowhere:in0", "w.t0:missing", "", "in0", "::zz", "w.t0", "W.T0:IN0", "w.t0:in0 x"})
+		}
+	}
+	declOut := func(names []string) outJ {
+		return outJ{Name: r.Pick(names), Tr: r.Pick(transports), Target: target()}
+	}
+	uniqO := func(l []outJ) []outJ {
+		seen := map[string]bool{}
+		var out []outJ
+		for _, c := range l {
+			if seen[c.Name] && !r.Chance(1, 12) {
+				continue
+			}
+			seen[c.Name] = true
+			out = append(out, c)
+		}
+		return out
+	}
+	var walk2 func(ro *roleJ)
+	walk2 = func(ro *roleJ) {
+		names := outNames
+		if r.Chance(1, 40) {
+			names = inNames // a name used in both directions
+		}
+		if ro.Task == nil {
+			if r.Chance(1, 6) {
+				ro.Connect = []outJ{declOut(names)}
+			}
+			for i := range ro.Roles {
+				walk2(&ro.Roles[i])
+			}
+			return
+		}
+		var own []outJ
+		for i := r.Range(0, 3); i > 0; i-- {
+			own = append(own, declOut(names))
+		}
+		ro.Connect = uniqO(own)
+		if r.Chance(1, 4) {
+			c := declOut(names)
+			if len(ro.Connect) > 0 && r.Chance(4, 5) {
+				c.Name = ro.Connect[r.Intn(len(ro.Connect))].Name // shadowed by the role level
+			}
+			ro.Task.CConn = []outJ{c}
+		}
+	}
+	walk2(&root)
+	return envInput{Root: root}
+}
+
+// fixed workflows that run first: one per clause of the property and the witnesses of the
+// refuted statements
+func corpus() []envInput {
+	t := func(name, mode, host string, bind []inJ, conn []outJ, cb []inJ, cc []outJ) roleJ {
+		return roleJ{Name: name, Bind: bind, Connect: conn, Task: &taskJ{Mode: mode, Host: host, CBind: cb, CConn: cc}}
+	}
+	w := func(label string, roles ...roleJ) envInput {
+		return envInput{Label: label, Root: roleJ{Name: "w", Roles: roles}}
+	}
+	return []envInput{
+		// C13-a: inbound with an explicit target; the peer is sent to the allocated port
+		w("explicit-inbound-target",
+			t("b", "direct", "h1", []inJ{{Name: "in0", Target: "tcp://*:5555"}}, nil, nil, nil),
+			t("c", "fairmq", "h2", nil, []outJ{{Name: "out0", Target: "w.b:in0"}}, nil, nil)),
+		// C13-b: inbound with an invalid target: not configured, still advertised
+		w("invalid-inbound-target",
+			t("b", "direct", "h1", []inJ{{Name: "in0", Target: "nonsense"}}, nil, nil, nil),
+			t("c", "fairmq", "h2", nil, []outJ{{Name: "out0", Target: "w.b:in0"}}, nil, nil)),
+		// C13-c: two channels of one task claim one alias
+		w("alias-twice-in-one-task",
+			t("b", "direct", "h1", []inJ{{Name: "in0", Global: "ga"}, {Name: "in1", Global: "ga", Addr: "ipc"}}, nil, nil, nil),
+			t("c", "fairmq", "h2", nil, []outJ{{Name: "out0", Target: "::ga"}}, nil, nil)),
+		// plain: path target across hosts, alias target, ipc, template-level bind overridden
+		w("plain",
+			t("b", "direct", "h1", []inJ{{Name: "in0", Tr: "zeromq"}, {Name: "ctl", Addr: "ipc", Tr: "shmem", Global: "ga"}}, nil,
+				[]inJ{{Name: "in0", Tr: "shmem"}, {Name: "in1"}}, nil),
+			t("c", "fairmq", "h2", nil, []outJ{{Name: "out0", Target: "w.b:in0", Tr: "nanomsg"}, {Name: "out1", Target: "::ga"},
+				{Name: "out2", Target: "w.b:in1"}, {Name: "mon", Target: "tcp://somewhere:1234", Tr: "zeromq"}}, nil,
+				[]outJ{{Name: "out0", Target: "ignored"}})),
+		// alias claimed by two tasks: rejected
+		w("alias-in-two-tasks",
+			t("b", "direct", "h1", []inJ{{Name: "in0", Global: "ga"}}, nil, nil, nil),
+			t("c", "direct", "h2", []inJ{{Name: "in0", Global: "ga"}}, nil, nil, nil)),
+		// target that names nothing: rejected
+		w("unmatched",
+			t("b", "direct", "h1", []inJ{{Name: "in0"}}, nil, nil, nil),
+			t("c", "fairmq", "h1", nil, []outJ{{Name: "out0", Target: "w.b:in1"}}, nil, nil)),
+	}
+}
+
+func main() {
+	o := gen.ParseFlags()
+	var cases []gen.Case
+	var w *world
+	getWorld := func() *world {
+		if w == nil {
+			build := os.Getenv("VERIF_BUILD")
+			if build == "" {
+				build = "/verif/build"
+			}
+			var err error
+			w, err = newWorld(filepath.Join(build, "sim", "C13"))
+			if err != nil {
+				fmt.Fprintln(os.Stderr, "simcore:", err)
+				os.Exit(3)
+			}
+		}
+		return w
+	}
+	if o.Replay != "" {
+		ins, kinds, err := gen.LoadReplay(o.Replay)
+		if err != nil {
+			panic(err)
+		}
+		for i, raw := range ins {
+			if strings.HasPrefix(kinds[i], "env") {
+				var in struct {
+					Env envInput `json:"env"`
+				}
+				if err := json.Unmarshal(raw, &in); err != nil {
+					panic(err)
+				}
+				cases = append(cases, getWorld().runEnv(in.Env))
+				continue
+			}
+			var in pureInput
+			if err := json.Unmarshal(raw, &in); err != nil {
+				panic(err)
+			}
+			if c, ok := replayPure(in, kinds[i]); ok {
+				cases = append(cases, c)
+			}
+		}
+	} else {
+		r := gen.NewRand(o.Seed)
+		rPure, rEnv := r.Fork(), r.Fork()
+		for _, in := range corpus() {
+			cases = append(cases, getWorld().runEnv(in))
+		}
+		nEnv := o.N / 5
+		nPure := o.N - nEnv
+		for i := 0; i < nPure; i++ {
+			cases = append(cases, genPure(rPure, i%5))
+		}
+		for i := 0; i < nEnv; i++ {
+			cases = append(cases, getWorld().runEnv(genEnv(rEnv)))
+		}
+	}
+	if err := gen.WriteCases(o, "C13", "From Verif Require Import Channels.", "c13_case", "report13", cases, nil); err != nil {
+		panic(err)
 	}
 }
